@@ -175,7 +175,7 @@ def _local_helper(call: ast.Call, fn):
 _SITE_FUNCS: list = []
 
 
-def except_tuples(fn) -> list[list[str]]:
+def except_tuples(fn, merge_same_action: bool = False) -> list[list[str]]:
     """For every ``except`` clause (source order) and ``contextlib.suppress(...)``: the class names.  A clause that an
     extract-method refactoring moved into a private helper of the same class or module is found where the helper is
     called (two levels deep at most), so that its position in the list stays what it was."""
@@ -212,7 +212,44 @@ def except_tuples(fn) -> list[list[str]]:
                         pass
 
     visit(fn, (), 0, (fn,))
+    if merge_same_action:
+        # adjacent clauses of one `try` whose bodies are the same statement list (up to the `as` name) are one clause
+        # with the union of the classes: first-match over them is the same function of the exception class.  The
+        # models read a clause by its POSITION, so a clause split in two (or two merged into one) must not shift it.
+        drop = {}
+        for node in ast.walk(fn_ast(fn)):
+            if isinstance(node, ast.Try):
+                prev = None
+                for h in node.handlers:
+                    act = _handler_action(h)
+                    if prev is not None and act == prev[1]:
+                        drop[(h.lineno, h.col_offset)] = (prev[0].lineno, prev[0].col_offset)
+                    else:
+                        prev = (h, act)
+        merged = {}
+        for pos, n in sorted(out, key=lambda e: e[0]):
+            tgt = drop.get(pos, pos) if len(pos) == 2 else pos
+            merged.setdefault(tgt, [])
+            merged[tgt] += [c for c in n if c not in merged[tgt]]
+        return [n for _, n in sorted(merged.items(), key=lambda e: e[0])]
     return [n for _, n in sorted(out, key=lambda e: e[0])]
+
+
+def _handler_action(h: ast.ExceptHandler) -> str:
+    """The body of an `except` clause as text, with the `as` name made anonymous and docstrings / logging dropped."""
+    body = []
+    for b in h.body:
+        if isinstance(b, ast.Expr) and isinstance(b.value, ast.Constant):
+            continue
+        if isinstance(b, ast.Expr) and isinstance(b.value, ast.Call) and isinstance(b.value.func, ast.Attribute) \
+                and isinstance(b.value.func.value, ast.Name) and b.value.func.value.id in ("LOGGER", "_LOGGER", "logger"):
+            continue
+        body.append(b)
+    mod = ast.Module(body=body, type_ignores=[])
+    text = ast.dump(mod)
+    if h.name:
+        text = text.replace(f"id='{h.name}'", "id='<exc>'")
+    return text
 
 
 # ----------------------------------------------------------------------------------------------
@@ -673,7 +710,9 @@ def extract(repo: str):
     js["except"] = {}
     _SITE_FUNCS[:] = [getattr(fn, "__func__", fn) for fn, _ in exc_sites.values()]
     for n, (fn, _) in exc_sites.items():
-        tuples = except_tuples(fn)
+        # `Persistence.load`: the persistence model reads its clauses by position (0: create the file, 1: read error,
+        # 2: the restore loop's), so adjacent clauses with the same body count as one
+        tuples = except_tuples(fn, merge_same_action=(n == "excPersistLoad"))
         if n == "excMissingNC":
             # this clause names library errors, which the model keeps in a separate type
             if len(tuples) != 1:
